@@ -586,26 +586,37 @@ theorem gaOffspring_spec {cfg : GACfg} {sp : Space} {f : Pos → Bool} (hgeo : c
                 · simp at ho; subst ho; exact ⟨hq, hfq⟩) h
           exact ⟨(a.trans hs2).trans hs1, b⟩
 
-theorem gaReplaceDraws_suffix {x : Rat} {tape t3 : Tape} (h : gaReplaceDraws x tape = .ok t3) : t3 <:+ tape := by
-  unfold gaReplaceDraws at h
+theorem gaFittest_suffix {perm : List Nat} {x : Rat} {tape t3 : Tape} {fit : List Nat}
+    (h : gaFittest perm x tape = .ok (fit, t3)) : t3 <:+ tape := by
+  unfold gaFittest at h
+  simp only at h
   split at h
   · cases ha : takeInt tape with
     | error e => rw [ha] at h; simp at h
     | ok ya =>
       rw [ha] at h
       simp only at h
-      cases hb : takeInt ya.2 with
-      | error e => rw [hb] at h; simp at h
-      | ok yb =>
-        rw [hb] at h
-        simp only [Except.ok.injEq] at h
-        subst h
-        have ea := takeInt_spec (show takeInt tape = .ok (ya.1, ya.2) from ha)
-        have eb := takeInt_spec (show takeInt ya.2 = .ok (yb.1, yb.2) from hb)
-        have a1 : yb.2 <:+ ya.2 := by rw [eb]; exact List.suffix_cons _ _
-        have a2 : ya.2 <:+ tape := by rw [ea]; exact List.suffix_cons _ _
-        exact a1.trans a2
-  · simp only [Except.ok.injEq] at h; subst h; exact List.suffix_refl _
+      split at h
+      · simp at h
+      · split at h
+        · simp at h
+        · cases hb : takeInt ya.2 with
+          | error e => rw [hb] at h; simp at h
+          | ok yb =>
+            rw [hb] at h
+            simp only at h
+            split at h
+            · simp only [Except.ok.injEq, Prod.mk.injEq] at h
+              obtain ⟨_, rfl⟩ := h
+              have ea := takeInt_spec (show takeInt tape = .ok (ya.1, ya.2) from ha)
+              have eb := takeInt_spec (show takeInt ya.2 = .ok (yb.1, yb.2) from hb)
+              have a1 : yb.2 <:+ ya.2 := by rw [eb]; exact List.suffix_cons _ _
+              have a2 : ya.2 <:+ tape := by rw [ea]; exact List.suffix_cons _ _
+              exact a1.trans a2
+            · simp at h
+  · simp only [Except.ok.injEq, Prod.mk.injEq] at h
+    obtain ⟨_, rfl⟩ := h
+    exact List.suffix_refl _
 
 theorem gaParents_spec {cfg : GACfg} {sp : Space} {f : Pos → Bool} (hgeo : cfg.member.geo = sp.geo) (hsp : SpaceOK sp)
     {s : PopSt} {tape rest : Tape} {offs : List Pos} (ht : TapeOK sp f tape) (hmi : MembersIn sp s)
@@ -655,14 +666,16 @@ theorem gaCrossover_spec {cfg : GACfg} {sp : Space} {f : Pos → Bool} (hgeo : c
       simp only at h
       have e2 := takeRand01_spec (show takeRand01 x1.2 = .ok (x2.1, x2.2) from h2)
       have hs2 : x2.2 <:+ tape := (by rw [e2]; exact List.suffix_cons _ _ : x2.2 <:+ x1.2).trans hs1
-      cases h3 : gaReplaceDraws x2.1 x2.2 with
+      cases h3 : gaFittest x1.1 x2.1 x2.2 with
       | error e => rw [h3] at h; simp at h
-      | ok t3 =>
+      | ok x3 =>
         rw [h3] at h
         simp only at h
-        have hs3 : t3 <:+ tape := (gaReplaceDraws_suffix h3).trans hs2
-        obtain ⟨a, b⟩ := gaParents_spec hgeo hsp (ht.suffix hs3) hmi h
-        exact ⟨a.trans hs3, b⟩
+        have hs3 : x3.2 <:+ tape := (gaFittest_suffix (show gaFittest x1.1 x2.1 x2.2 = .ok (x3.1, x3.2) from h3)).trans hs2
+        split at h
+        · obtain ⟨a, b⟩ := gaParents_spec hgeo hsp (ht.suffix hs3) hmi h
+          exact ⟨a.trans hs3, b⟩
+        · simp at h
 
 /-- `IterOK` for the GA state (view = `.pop`) together with the offspring invariant -/
 def GAIterOK (sp : Space) (f : Pos → Bool) (g g' : GASt) (p : Pos) : Prop :=
